@@ -93,7 +93,7 @@ class Env:
         return False, None
 
 
-_BUILTIN_NAMES = {'len', 'range', 'list', 'dict', 'tuple', 'set', 'sorted', 'filter', 'map', 'enumerate', 'next', 'iter', 'min',
+_BUILTIN_NAMES = {'type', 'len', 'range', 'list', 'dict', 'tuple', 'set', 'sorted', 'filter', 'map', 'enumerate', 'next', 'iter', 'min',
                   'max', 'any', 'all', 'isinstance', 'str', 'int', 'bool', 'abs', 'sum', 'reversed', 'zip', 'hasattr', 'getattr',
                   'print'}
 _STR_METHODS = {'strip', 'lstrip', 'rstrip', 'lower', 'upper', 'startswith', 'endswith', 'find', 'rfind', 'index', 'count',
@@ -155,6 +155,13 @@ class Interp:
 
     def call_value(self, f, args, kwargs, node):
         if isinstance(f, FuncRef):
+            if f.owner is not None:
+                decs = {d.id for d in f.fn.decorator_list if isinstance(d, ast.Name)}
+                if not decs & {'staticmethod', 'classmethod'}:
+                    # unbound method taken from the class: the first argument is the instance
+                    if not args:
+                        self.fail(node, 'unbound method %s called without an instance' % f.fn.name)
+                    return self.call_function(f, list(args)[1:], kwargs, node, selfobj=args[0])
             return self.call_function(f, args, kwargs, node)
         if isinstance(f, Bound):
             return self.call_function(f.ref, args, kwargs, node, selfobj=f.obj)
@@ -278,6 +285,12 @@ class Interp:
                 self.block(st.finalbody, env, mod, cls)
             elif isinstance(st, ast.Raise):
                 raise PyExc(ast.unparse(st))
+            elif isinstance(st, ast.With):
+                for item in st.items:
+                    v = self.ev(item.context_expr, env, mod, cls)
+                    if item.optional_vars is not None:
+                        self.assign(item.optional_vars, v, env, mod, cls)
+                self.block(st.body, env, mod, cls)
             elif isinstance(st, ast.FunctionDef):
                 env.vars[st.name] = Closure(st, env, mod, cls)
             elif isinstance(st, ast.Delete):
@@ -402,10 +415,12 @@ class Interp:
     def resolve_name(self, name, mod, node):
         if name in ('True', 'False', 'None'):
             return {'True': True, 'False': False, 'None': None}[name]
+        if ('name:' + name) in self.hooks:
+            return native(self.hooks['name:' + name])
         if name in ('regex', 're'):
             return ModRef('regex')
-        if name == 'copy':
-            return ModRef('copy')
+        if name in ('copy', 'os', 'json', 'abc', 'sys'):
+            return ModRef(name)
         r = self.idx.resolve(mod, name) if mod is not None else None
         if r is not None:
             if r[0] == 'class':
@@ -463,10 +478,11 @@ class Interp:
                 return o.table[name]
             raise PyExc('AttributeError: %s' % name)
         if isinstance(o, ModRef):
-            if o.name in ('regex', 'copy'):
-                return ('modfn', o.name, name)
             if o.mod is not None:
                 return self.resolve_name(name, o.mod, node)
+            if ('%s.%s' % (o.name, name)) in self.hooks or o.name in ('regex', 'copy'):
+                return ('modfn', o.name, name)
+            return ModRef('%s.%s' % (o.name, name))
         if isinstance(o, (str, list, dict)):
             return ('method', o, name)
         self.fail(node, 'attribute %s of %r' % (name, o))
@@ -581,6 +597,8 @@ class Interp:
             if isinstance(op, ast.NotEq):
                 return not self.eq(a, b)
             if isinstance(op, ast.Is):
+                if isinstance(a, ClassRef) and isinstance(b, ClassRef):
+                    return a.cls is b.cls
                 return a is b or (a is None and b is None) or (isinstance(a, (bool, int, str)) and type(a) is type(b) and a == b)
             if isinstance(op, ast.IsNot):
                 return not self.compare(ast.Is(), a, b, node)
@@ -804,13 +822,22 @@ class Interp:
                     return False
             elif name == 'print':
                 return None
+            elif name == 'type' and len(args) == 1:
+                v = args[0]
+                if isinstance(v, Obj) and v.cls is not None and hasattr(v.cls, 'methods'):
+                    return ClassRef(v.cls)
+                for tn, t in (('bool', bool), ('int', int), ('float', float), ('str', str), ('list', list), ('dict', dict),
+                              ('tuple', tuple)):
+                    if type(v) is t:
+                        return ('builtin', tn)
+                return ('builtin', 'object')
         except (TypeError, ValueError):
             raise PyExc('error in builtin ' + name)
         self.fail(node, 'builtin %s(%s)' % (name, ', '.join(type(a).__name__ for a in args)))
 
     def isinstance_(self, v, t, node):
         if isinstance(t, tuple) and t and t[0] == 'builtin':
-            want = {'list': list, 'str': str, 'int': int, 'dict': dict, 'tuple': tuple, 'bool': bool}.get(t[1])
+            want = {'list': list, 'str': str, 'int': int, 'dict': dict, 'tuple': tuple, 'bool': bool, 'float': float}.get(t[1])
             if want is None:
                 self.fail(node, 'isinstance with ' + t[1])
             return isinstance(v, want)
